@@ -621,8 +621,9 @@ func (d *DistKeyGenerator) ProcessResponses(bundles []*ResponseBundle) (
 		if bundle == nil {
 			continue
 		}
-		if d.canIssue && bundle.ShareIndex == d.nidx {
+		if d.canIssue && d.canReceive && bundle.ShareIndex == d.nidx {
 			// just in case we don't treat our own response
+			// (a node leaving the group is no share holder: its nidx is unset)
 			continue
 		}
 		if !isIndexIncluded(d.c.NewNodes, bundle.ShareIndex) {
